@@ -102,3 +102,39 @@ def run_for_property(prop, rep, seed):
         print('  battery %-45s %-11s %s' % (name, status, detail[:160]))
     rep.extra['mutant_battery'] = summary
     rep.note('mutant battery (checker sensitivity, does not decide the property): %(detected)d/%(mutants)d mutants detected, %(twins_silent)d/%(twins)d benign twins silent, %(stale)d stale' % summary)
+
+
+def _run_seed(args):
+    prop, name = args
+    d = os.path.join(VERIF, 'seeded', name)
+    tmp = tempfile.mkdtemp(prefix='verif-seed-')
+    try:
+        dst = os.path.join(tmp, 'repo')
+        os.makedirs(os.path.join(dst, 'src'))
+        shutil.copytree(os.path.join(REPO, 'src', 'ssh_audit'), os.path.join(dst, 'src', 'ssh_audit'), ignore=shutil.ignore_patterns('__pycache__'))
+        shutil.copy(os.path.join(REPO, 'ssh-audit.py'), os.path.join(dst, 'ssh-audit.py'))
+        p = subprocess.run(['patch', '-s', '-p1', '-i', os.path.join(d, 'patch.diff')], cwd=dst, capture_output=True, text=True)
+        if p.returncode != 0:
+            return (name, 'stale', 'patch does not apply to the current tree')
+        env = dict(os.environ, VERIF_REPO=dst, VERIF_OUT_DIR=os.path.join(tmp, 'out'), VERIF_EVIDENCE_DIR=os.path.join(tmp, 'ev'), VERIF_NO_BATTERY='1', PYTHONDONTWRITEBYTECODE='1')
+        r = subprocess.run([sys.executable, os.path.join(VERIF, 'check.py'), prop, '--tier', 'quick'], env=env, capture_output=True, text=True, timeout=600)
+        viol = [l for l in r.stdout.splitlines() if l.startswith(prop + ' [')]
+        return (name, 'ok' if r.returncode == 1 else 'MISSED', 'exit=%d %s' % (r.returncode, (viol[0][:200] if viol else '')))
+    finally:
+        shutil.rmtree(tmp, ignore_errors=True)
+
+
+def run_seeds_for_property(prop, rep):
+    """Independent seeded changes written against this property (kept under /verif/seeded): each is re-applied to a scratch copy of the current
+    tree and the property's quick check must report it.  Checker-sensitivity data like the mutant battery: recorded, never decides the property."""
+    root = os.path.join(VERIF, 'seeded')
+    names = sorted(n for n in os.listdir(root) if n.startswith(prop + '-') and os.path.exists(os.path.join(root, n, 'patch.diff'))) if os.path.isdir(root) else []
+    if not names:
+        return
+    with concurrent.futures.ProcessPoolExecutor(max_workers=min(8, len(names))) as ex:
+        res = list(ex.map(_run_seed, [(prop, n) for n in names]))
+    summary = {'seeded_changes': len(res), 'caught': sum(1 for r in res if r[1] == 'ok'), 'problems': ['%s: %s %s' % r for r in res if r[1] != 'ok']}
+    for name, status, detail in res:
+        print('  seeded  %-45s %-11s %s' % (name, status, detail[:160]))
+    rep.extra['independent_seeded_changes'] = summary
+    rep.note('independent seeded changes for this property (checker sensitivity): %(caught)d/%(seeded_changes)d reported by this check' % summary)
